@@ -17,6 +17,9 @@ const out = (s) => console.log(s);
 const uncaught_ = [];
 process.on("uncaughtException", (e) => { uncaught_.push(String(e && e.stack || e).split("\n").slice(0, 3).join(" | ").slice(0, 300)); });
 const hx = (v, d) => (BigInt.asUintN(64, BigInt(v)) & ((1n << BigInt(4 * d)) - 1n)).toString(16).padStart(d, "0");
+// 8- and 16-bit integers must arrive inside their type's range (a wasm scalar is 32 bits wide: anything else means the binding handed
+// over bits that do not belong to the value); the sign of 32/64-bit unsigned values is a documented quirk and is normalised by hx
+const hxn = (v, d, signed) => { const w = 4 * d, lo = signed ? -(2 ** (w - 1)) : 0, hi = signed ? 2 ** (w - 1) : 2 ** w; return (typeof v === "number" && Number.isInteger(v) && v >= lo && v < hi) ? hx(v, d) : "OUT-OF-RANGE(" + String(v) + ")"; };
 const dv = new DataView(new ArrayBuffer(8));
 const f32b = (bits) => { dv.setUint32(0, bits); return dv.getFloat32(0); };
 const f64b = (hi, lo) => { dv.setUint32(0, hi); dv.setUint32(4, lo); return dv.getFloat64(0); };
@@ -110,6 +113,8 @@ class JsEmitter:
                 return "pf32(%s)" % e
             if p == "f64":
                 return "pf64(%s)" % e
+            if p in INTS and INTS[p][0] <= 16:
+                return "hxn(%s, %d, %s)" % (e, INTS[p][0] // 4, "true" if INTS[p][1] else "false")
             return "hx(%s, %d)" % (e, prim_bits(p) // 4)
         if k == "enum":
             return "hx(%s.ffiValue, 8)" % e
